@@ -171,6 +171,7 @@ type Interp struct {
 	race         raceState
 	keyCount     int
 	negKeys      map[int]int
+	repCapUsed   bool
 	roCells      map[*Value]bool
 	pkgInited    map[*ssa.Package]bool
 	atlas        map[string]*atlasEntry
@@ -197,6 +198,7 @@ func (in *Interp) resetRun() {
 	in.atlas = map[string]*atlasEntry{}
 	in.keyCount = 0
 	in.negKeys = nil
+	in.repCapUsed = false
 	in.roCells = nil
 	in.race = raceState{cells: map[interface{}]*shadow{}, objVC: map[interface{}]*vclock{}, reported: map[string]bool{}}
 	in.exploreOff = false
@@ -760,10 +762,20 @@ func (in *Interp) step(g *G) {
 		*p = zero(ins.Type().(*types.Pointer).Elem())
 		in.set(fr, ins, Value{K: KPtr, R: p})
 	case *ssa.MakeSlice:
-		n := in.concIntT(in.get(fr, ins.Len), ins.Len.Type(), "makeslice len")
-		c := in.concIntT(in.get(fr, ins.Cap), ins.Cap.Type(), "makeslice cap")
-		if n < 0 || c < n {
-			in.goPanic(g, "makeslice: len out of range")
+		el0 := ins.Type().Underlying().(*types.Slice).Elem()
+		n, okN := in.makeSliceArg(g, fr, in.get(fr, ins.Len), ins.Len.Type(), el0, "len")
+		if !okN {
+			return
+		}
+		c := n
+		if ins.Cap != ins.Len {
+			var okC bool
+			if c, okC = in.makeSliceArg(g, fr, in.get(fr, ins.Cap), ins.Cap.Type(), el0, "cap"); !okC {
+				return
+			}
+		}
+		if c < n {
+			in.goPanic(g, "makeslice: cap out of range")
 			return
 		}
 		s := make([]Value, n, c)
@@ -834,6 +846,51 @@ func (in *Interp) concIntT(v Value, t types.Type, site string) int64 {
 		return int64(v.N & (uint64(1)<<v.W - 1))
 	}
 	return in.concInt(v, site)
+}
+
+// repCap is the capacity that stands for every symbolic capacity above 64 elements (make with a size that
+// comes from the caller): nothing a bounded run does distinguishes capacities it never fills. Reading cap() of
+// such a slice, or appending beyond 64 elements to one, makes the path inconclusive.
+const repCap = 4099
+
+// makeSliceArg evaluates the len or cap operand of make([]T, ...): out-of-range values panic as the runtime does
+// (negative, or more than 2^48 bytes on linux/amd64); a symbolic value is split into "out of range", "large"
+// (represented by repCap) and the small values, which are enumerated.
+func (in *Interp) makeSliceArg(g *G, fr *Frame, v Value, t types.Type, el types.Type, what string) (int64, bool) {
+	esz := sizes.Sizeof(el)
+	limit := int64(1) << 48
+	if esz > 0 {
+		limit /= esz
+	} else {
+		limit = 1<<63 - 1
+	}
+	if v.R == nil {
+		n := in.concIntT(v, t, "makeslice "+what)
+		if n < 0 || n > limit {
+			in.goPanic(g, "makeslice: "+what+" out of range")
+			return 0, false
+		}
+		return n, true
+	}
+	c := in.Ctx
+	x := v.R.(*smt.Term)
+	if x.W < 64 {
+		if _, signed, _ := intInfo(t); signed {
+			x = c.SExt(x, 64)
+		} else {
+			x = c.ZExt(x, 64)
+		}
+	}
+	bad := c.Or(c.Cmp(smt.OpSLt, x, c.BV(0, 64)), c.Cmp(smt.OpSLt, c.BV(uint64(limit), 64), x))
+	if in.Branch(bad, "makeslice "+what+" out of range") {
+		in.goPanic(g, "makeslice: "+what+" out of range")
+		return 0, false
+	}
+	if in.Branch(c.Cmp(smt.OpSLt, c.BV(64, 64), x), "makeslice "+what+" large") {
+		in.repCapUsed = true
+		return repCap, true
+	}
+	return in.concIntT(v, t, "makeslice "+what), true
 }
 
 func (in *Interp) concInt(v Value, site string) int64 {
